@@ -10,7 +10,13 @@ from sim import ticks
 
 def real_events(sess):
     ev = {"deliver": {}, "eof": {}, "hs": None}
+    cut = None
     for e in sess.netlog:
+        if e[0] == "app" and e[3] == "reconnect":
+            cut = e[1]; break
+    for e in sess.netlog:
+        if cut is not None and e[0] in ("deliver", "eof", "app") and e[1] >= cut:
+            continue
         if e[0] == "deliver":
             _, t, side, sub, data = e
             ev["deliver"].setdefault((side, sub), []).append(data.hex() if data else "-")
